@@ -815,3 +815,42 @@ fn test_g2_doubling_correctness() {
 fn g2_curve_tests() {
     ::tests::curve::curve_tests::<G2>();
 }
+
+#[cfg(feature = "verif")]
+impl G2Affine {
+    /// verification hook: private curve-equation test
+    pub fn verif_is_on_curve(&self) -> bool {
+        self.is_on_curve()
+    }
+    /// verification hook: private y-recovery
+    pub fn verif_get_point_from_x(x: Fq2, greatest: bool) -> Option<G2Affine> {
+        Self::get_point_from_x(x, greatest)
+    }
+    /// verification hook: private cofactor scaling
+    pub fn verif_scale_by_cofactor(&self) -> G2 {
+        self.scale_by_cofactor()
+    }
+    /// verification hook: private [r]P == O test
+    pub fn verif_is_in_correct_subgroup_assuming_on_curve(&self) -> bool {
+        self.is_in_correct_subgroup_assuming_on_curve()
+    }
+    /// verification hook: build a point from raw coordinates without any check
+    pub fn verif_from_raw(x: Fq2, y: Fq2, infinity: bool) -> Self {
+        G2Affine { x, y, infinity }
+    }
+    /// verification hook: raw coordinates
+    pub fn verif_raw(&self) -> (Fq2, Fq2, bool) {
+        (self.x, self.y, self.infinity)
+    }
+}
+#[cfg(feature = "verif")]
+impl G2 {
+    /// verification hook: build a projective point from raw Jacobian coordinates
+    pub fn verif_from_raw(x: Fq2, y: Fq2, z: Fq2) -> Self {
+        G2 { x, y, z }
+    }
+    /// verification hook: raw Jacobian coordinates
+    pub fn verif_raw(&self) -> (Fq2, Fq2, Fq2) {
+        (self.x, self.y, self.z)
+    }
+}
